@@ -39,10 +39,13 @@ def runOp (p : List String) : String :=
     let shown := " ".intercalate (ms.map fun m => s!"D({showFrames m})")
     s!"delivered={ms.length}:{hex64 (fnv64 shown.toUTF8.toList)}"
   | ["fsmscript", kind, script] => Fsm.run kind script
-  | ["linger", _opts, scfg, _rcfg, _count, _size] =>
+  | ["linger", opts, scfg, _rcfg, _count, _size] =>
     -- the full statement of C15: a LINGER of -1, or one comfortably longer than the transfer needs, delivers everything
+    -- (to a peer that reads: `stall=1` peers do not)
     let l := ((cfgGet scfg "linger").map parseInt).getD 0
-    s!"linger=ok all={if l < 0 || l ≥ 8000 then "yes" else "n/a"}"
+    let stalled := cfgGet opts "stall" == some "1"
+    s!"linger=ok all={if (l < 0 || l ≥ 8000) && !stalled then "yes" else "n/a"}"
+  | "pubstall" :: _ => "pubstall=ok"     -- C12: a stalled subscriber neither blocks the publisher nor delays the others
   | "framewise" :: _ => "framewise=ok"   -- C02: one message, one peer, whole - also when it is sent frame by frame
   | "secure" :: _ => "secure=ok"         -- C18: decodable, no cleartext, tampering yields a prefix, sessions do not repeat
   | "churn" :: _ => "churn=ok"           -- C20: buffers and descriptors are given back, whatever the backend
